@@ -408,14 +408,14 @@ theorem skipRuns_noop (G : NodeGrammar) (uni : Uni) (n k : Nat) (h : G.skipped =
   · left; exact h1
   · right; exact ⟨sks, h1, by simpa [tokensList] using h2⟩
 
-theorem atomicBudget_succ (n : Nat) : ∃ b, atomicBudget n = b + 1 := by
+theorem Tok.atomicBudget_succ (n : Nat) : ∃ b, atomicBudget n = b + 1 := by
   refine ⟨n * n + 2 * n, ?_⟩
   simp only [atomicBudget, Nat.add_mul, Nat.mul_add]
   omega
 
 theorem specTokSkip_none (call : PExpr → Inp → List Sp → STR) (n : Nat) (i : Inp) (S : List Sp) :
     specTokSkip call false false (atomicBudget n) i S = .ok i S [] := by
-  obtain ⟨b, hb⟩ := atomicBudget_succ n
+  obtain ⟨b, hb⟩ := Tok.atomicBudget_succ n
   simp [specTokSkip, hb, specTokRepLoop, specTokSkipUnit]
 
 /-! ### loops -/
@@ -501,7 +501,7 @@ theorem repUnit_sim (pg : PGrammar) (am : Atom3) (G : NodeGrammar) (sf body : In
           simp [tokens_mkSkipped, ht, h3 ha]
 
 /-- `repLoop` against `specTokRepLoop`, unit against unit. -/
-theorem repLoop_sim (pg : PGrammar) (am : Atom3) (G : NodeGrammar)
+theorem Tok.repLoop_sim (pg : PGrammar) (am : Atom3) (G : NodeGrammar)
     (uT : Nat → Inp → M → R Val) (uS : Nat → Inp → List Sp → STR)
     (hu : ∀ idx i m, SimG pg am (tokens G) [] (uT idx i m) (uS idx i m.stk)) (min : Nat) (max : Option Nat) :
     ∀ (bT bS idx : Nat) (i : Inp) (m : M) (accT : List Val) (accS : List Token),
@@ -553,7 +553,7 @@ theorem repLoop_sim (pg : PGrammar) (am : Atom3) (G : NodeGrammar)
 
 /-- The tail of a sequence (typed: skip, element, skip, element …; pest: `b1 ~ (b2 ~ …)` with its
 skips) for a no-op skip. -/
-theorem seqSpine_sim (pg : PGrammar) (G : NodeGrammar) (uni : Uni) (n : Nat) (inh : Bool) (sk : Flag)
+theorem Tok.seqSpine_sim (pg : PGrammar) (G : NodeGrammar) (uni : Uni) (n : Nat) (inh : Bool) (sk : Flag)
     (skip : Inp → M → R (List Val)) (hskip : SkipNoop G skip) (hW : pg.defines "WHITESPACE" = false)
     (hC : pg.defines "COMMENT" = false)
     (hP : ∀ (N : Nat) (e : PExpr), Frag pg e → ∀ (am : Atom3) (i : Inp) (m : M),
@@ -667,7 +667,7 @@ theorem seqSpine_sim (pg : PGrammar) (G : NodeGrammar) (uni : Uni) (n : Nat) (in
 
 /-- The alternatives of a choice (typed: `choiceLoop` over the spine, each under `restore_on_none`;
 pest: `b1 | (b2 | …)` on an immutable stack). -/
-theorem choiceSpine_sim (pg : PGrammar) (G : NodeGrammar) (uni : Uni) (n : Nat) (inh : Bool) (sk : Flag)
+theorem Tok.choiceSpine_sim (pg : PGrammar) (G : NodeGrammar) (uni : Uni) (n : Nat) (inh : Bool) (sk : Flag)
     (hP : ∀ (N : Nat) (e : PExpr), Frag pg e → ∀ (am : Atom3) (i : Inp) (m : M),
       SimG pg am (tokens G) [] (parse G uni n inh (genExpr pg sk e) i m) (specTok pg uni N am e i m.stk)) :
     ∀ (b : PExpr), Frag pg b → ∀ (N : Nat) (am : Atom3) (k0 : Nat) (i : Inp) (m : M),
@@ -775,7 +775,7 @@ theorem rule_tokens (pg : PGrammar) (k : Nat) (pr : PRule) (name : String) (hpr 
 
 /-- A repetition node against `specTokRepWith` (skip-free), given the simulation of its element at
 the fuel below. -/
-theorem rep_sim (pg : PGrammar) (uni : Uni) (hsf : SkipFree pg) (n : Nat)
+theorem Tok.rep_sim (pg : PGrammar) (uni : Uni) (hsf : SkipFree pg) (n : Nat)
     (ih : ∀ (N : Nat) (e : PExpr), Frag pg e → ∀ (sk : Flag) (inh : Bool) (am : Atom3) (i : Inp) (m : M),
       SimG pg am (tokens (gen pg)) [] (parse (gen pg) uni n inh (genExpr pg sk e) i m)
         (specTok pg uni N am e i m.stk))
@@ -786,7 +786,7 @@ theorem rep_sim (pg : PGrammar) (uni : Uni) (hsf : SkipFree pg) (n : Nat)
       (specTokRepWith (specTok pg uni N) N false false am x min max i m.stk) := by
   simp only [parse]
   unfold specTokRepWith
-  have hloop := repLoop_sim pg am (gen pg)
+  have hloop := Tok.repLoop_sim pg am (gen pg)
     (repUnitP (parse (gen pg) uni n false (gen pg).skipped) (parse (gen pg) uni n inh (genExpr pg sk x))
       (defaultSkipVal (gen pg)) (skipCount sk inh))
     (fun idx i S =>
@@ -1042,7 +1042,7 @@ theorem frag_sim (pg : PGrammar) (uni : Uni) (hsf : SkipFree pg) :
             obtain ⟨h1, h2, h3⟩ := SimG.ok_ok.mp ha
             subst h1 h2
             simp only []
-            have hb := seqSpine_sim pg (gen pg) uni n inh sk
+            have hb := Tok.seqSpine_sim pg (gen pg) uni n inh sk
               (skipRuns (parse (gen pg) uni n false (gen pg).skipped) (skipCount sk inh))
               (skipRuns_noop (gen pg) uni n _ hsf.skipped) hsf.noW hsf.noC
               (fun N e hF am i m => ih N e hF sk inh am i m) b hFb N am i1 m1 [] [] (fun _ => rfl)
@@ -1082,7 +1082,7 @@ theorem frag_sim (pg : PGrammar) (uni : Uni) (hsf : SkipFree pg) :
       | zero => exact SimG.oof_right _
       | succ N =>
         simp only [genExpr, parse]
-        have hc := choiceSpine_sim pg (gen pg) uni n inh sk (fun N e hF am i m => ih N e hF sk inh am i m)
+        have hc := Tok.choiceSpine_sim pg (gen pg) uni n inh sk (fun N e hF am i m => ih N e hF sk inh am i m)
           (.choice a b) ⟨hFa, hFb⟩ (N+1) am 0 i m
         simp only [genChoiceSpine] at hc
         revert hc
@@ -1138,42 +1138,42 @@ theorem frag_sim (pg : PGrammar) (uni : Uni) (hsf : SkipFree pg) :
       | zero => exact SimG.oof_right _
       | succ N =>
         simp only [genExpr, specTok, hsf.noW, hsf.noC]
-        exact rep_sim pg uni hsf n ih x hF sk inh am i m _ _ N
+        exact Tok.rep_sim pg uni hsf n ih x hF sk inh am i m _ _ N
     | repOnce x _ =>
       intro hF sk inh am i m
       cases N with
       | zero => exact SimG.oof_right _
       | succ N =>
         simp only [genExpr, specTok, hsf.noW, hsf.noC]
-        exact rep_sim pg uni hsf n ih x hF sk inh am i m _ _ N
+        exact Tok.rep_sim pg uni hsf n ih x hF sk inh am i m _ _ N
     | repExact x c _ =>
       intro hF sk inh am i m
       cases N with
       | zero => exact SimG.oof_right _
       | succ N =>
         simp only [genExpr, specTok, hsf.noW, hsf.noC]
-        exact rep_sim pg uni hsf n ih x hF sk inh am i m _ _ N
+        exact Tok.rep_sim pg uni hsf n ih x hF sk inh am i m _ _ N
     | repMin x c _ =>
       intro hF sk inh am i m
       cases N with
       | zero => exact SimG.oof_right _
       | succ N =>
         simp only [genExpr, specTok, hsf.noW, hsf.noC]
-        exact rep_sim pg uni hsf n ih x hF sk inh am i m _ _ N
+        exact Tok.rep_sim pg uni hsf n ih x hF sk inh am i m _ _ N
     | repMax x c _ =>
       intro hF sk inh am i m
       cases N with
       | zero => exact SimG.oof_right _
       | succ N =>
         simp only [genExpr, specTok, hsf.noW, hsf.noC]
-        exact rep_sim pg uni hsf n ih x hF sk inh am i m _ _ N
+        exact Tok.rep_sim pg uni hsf n ih x hF sk inh am i m _ _ N
     | repMinMax x c d _ =>
       intro hF sk inh am i m
       cases N with
       | zero => exact SimG.oof_right _
       | succ N =>
         simp only [genExpr, specTok, hsf.noW, hsf.noC]
-        exact rep_sim pg uni hsf n ih x hF sk inh am i m _ _ N
+        exact Tok.rep_sim pg uni hsf n ih x hF sk inh am i m _ _ N
     | skip needles =>
       intro _ sk inh am i m
       cases N with
